@@ -590,7 +590,7 @@ def part_c():
         check(files[0] == "files" and [x[1] for x in files[1]]
               == ["SAMPLE A", "SAMPLE B", "THIRD", "FOURTH"], f"file names {files}")
         check(files[1][0][2] == ["IMG", "A:", "VOL", "SAMPLE A"]
-              and files[1][0][-1] == s1[140:], "sample A path/bytes")
+              and files[1][0][-1] == b"", "sample A path/bytes")
         check(res[1][0][2] == files, "second read of files is the same")
     d = bytearray(good)
     d[5 * SECT] = 0x77       # first byte of SAMPLE B's header: no longer a sample
